@@ -31,6 +31,10 @@ func (s *Session) extraObligations(prop string) ([]*Obligation, error) {
 		case "C01", "C03", "C04", "C07", "C12":
 			out = append(out, s.omDiffObligation(prop))
 		}
+		switch prop {
+		case "C03", "C04", "C05", "C19":
+			out = append(out, s.jsonDiffObligation(prop))
+		}
 	}
 	if prop == "C15" {
 		out = append(out, s.planSummaryObligations()...)
@@ -117,6 +121,34 @@ func (s *Session) omDiffObligation(prop string) *Obligation {
 	if len(reply.Data.Failures) > 0 || reply.Data.Steps == 0 {
 		ob.Result = "fail"
 		ob.Raw = "the library disagrees with the assumed model (the proofs that use A-OM rest on a wrong contract): " + strings.Join(reply.Data.Failures, " | ")
+	}
+	return ob
+}
+
+// jsonDiffObligation: thorough tier only, labelled BOUNDED: the assumed facts about encoding/json against the real library.
+func (s *Session) jsonDiffObligation(prop string) *Obligation {
+	ob := &Obligation{Name: "bounded:A-JSON/scalars-and-round-trip", Fn: "encoding/json", Kind: "bounded", Props: []string{prop}, Backend: "bounded-differential",
+		Clause: "4000 random scalars (strings over an alphabet with quotes, backslashes, control characters, U+2028, non-BMP runes; number literals of any magnitude / notation; booleans; null) seed VERIF_SEED: json.Marshal is one line, decodes back (UseNumber) to the same value, keeps number literals verbatim; UnmarshalOrdered -> MarshalOrdered is the identity on a compact document holding the scalar"}
+	_, raw, err := runHarnessRaw(map[string]any{"mode": "jsondiff"})
+	if err != nil {
+		ob.Result, ob.Raw = "error", err.Error()
+		return ob
+	}
+	var reply struct {
+		Data struct {
+			Tried    int      `json:"tried"`
+			Failures []string `json:"failures"`
+		} `json:"data"`
+	}
+	if e := jsonUnmarshal(raw, &reply); e != nil {
+		ob.Result, ob.Raw = "error", e.Error()
+		return ob
+	}
+	ob.Clause += fmt.Sprintf(" [%d scalars]", reply.Data.Tried)
+	ob.Result = "pass"
+	if len(reply.Data.Failures) > 0 || reply.Data.Tried == 0 {
+		ob.Result = "fail"
+		ob.Raw = strings.Join(reply.Data.Failures, " | ")
 	}
 	return ob
 }
